@@ -32,3 +32,18 @@ Theorem C14_acl_insert_then_delete_safe_partial :
     verdict packet matches permit default (dev st) p = verdict packet matches permit default (old st) p.
 Proof. exact insert_then_delete_safe_proved. Qed.
 Print Assumptions C14_acl_insert_then_delete_safe_partial.
+
+(* IOS, proved for EVERY move-free edit script (no line occurs twice, runs < 10000): after
+   any number k of the numbered commands the device ACL exists and gives every packet on
+   which the old and the new ACL agree that same verdict, for every first-match semantics.
+   (The new lines are inserted top-down, then the old lines deleted bottom-up; with moves
+   the statement is false for the current algorithm: known findings F-C14-1, F-C14-2.) *)
+From NA Require Import Cisco.IosAcl Cisco.IosAclFresh Cisco.IosStepSafe.
+Theorem C14_ios_move_free_script_safe_at_every_step :
+  forall m cs, fresh m -> short_runs m 0 -> diff_ios m = Some cs ->
+  forall k, exists lk, iexec_all (reseq (listA m)) (firstn k cs) = Some lk /\
+    forall (packet : Type) (matches : ientry -> packet -> bool) (permit : ientry -> bool) (default : bool) (p : packet),
+      fverdict packet matches permit default (listA m) p = fverdict packet matches permit default (listB m) p ->
+      fverdict packet matches permit default (map snd lk) p = fverdict packet matches permit default (listA m) p.
+Proof. exact ios_fresh_stepwise. Qed.
+Print Assumptions C14_ios_move_free_script_safe_at_every_step.
